@@ -294,6 +294,38 @@ impl Ctx {
         }
     }
 
+    /// Observation of a whole sequence (iterators): compared element-wise, reported compactly.
+    pub fn obs_seq<T: PartialEq + std::fmt::Debug + Hash>(
+        &mut self,
+        method: &'static str,
+        class: &str,
+        a1: u64,
+        want: &[T],
+        f: impl FnOnce() -> Vec<T>,
+    ) {
+        self.evals += 1;
+        jrn::set_query(method, 0, a1, 0);
+        match trap(f) {
+            Ok(got) => {
+                if self.want_digest {
+                    self.cur_digest = self.cur_digest.rotate_left(5) ^ h64(&(method, a1, &got));
+                }
+                if self.answers.len() < 200_000 {
+                    self.answers.insert(h64(&(method, got.len(), got.first().map(|x| h64(x)))));
+                }
+                if got.as_slice() != want {
+                    let d = want.iter().zip(got.iter()).position(|(a, b)| a != b);
+                    let obs = match d {
+                        Some(i) => format!("Seq(len {}; first difference at index {}: {:?} instead of {:?})", got.len(), i, got[i], want[i]),
+                        None => format!("Seq(len {} instead of {}; common prefix equal; extra/missing tail starts with {:?})", got.len(), want.len(), got.get(want.len()).or(None)),
+                    };
+                    self.violation(method, class, format!("{}({})", method, fmt_args(method, 0, a1, 0)), format!("sequence of {} elements", want.len()), obs);
+                }
+            }
+            Err(msg) => self.violation(method, class, format!("{}({})", method, fmt_args(method, 0, a1, 0)), format!("sequence of {} elements", want.len()), format!("PANIC: {msg}")),
+        }
+    }
+
     /// An observation whose only requirement is "returns without panicking".
     #[inline(always)]
     pub fn total<R>(&mut self, method: &'static str, class: &str, a0: u128, a1: u64, a2: u64, f: impl FnOnce() -> R) -> Option<R> {
@@ -431,9 +463,11 @@ fn child_main<C: Case>(args: &Args, cases: &[C], k: u64, n: u64, start: u64) {
         }
         o.flush().ok();
     };
+    // VERIF_SEED only rotates which child runs which case; it cannot change what is explored
+    let rot: u64 = std::env::var("VERIF_SEED").ok().and_then(|s| s.parse::<u64>().ok()).unwrap_or(0) % n.max(1);
     for (i, c) in cases.iter().enumerate() {
         let i = i as u64;
-        if i % n != k || i < start {
+        if (i + rot) % n != k || i < start {
             continue;
         }
         let secs = 30 + c.weight() / 100_000;
@@ -533,9 +567,22 @@ pub fn main_with<C: Case>(enumerate: impl Fn(&Args) -> Vec<C>) {
                     };
                     let mut err = ch.stderr.take().unwrap();
                     let errt = std::thread::spawn(move || {
-                        let mut s = Vec::new();
-                        err.read_to_end(&mut s).ok();
-                        String::from_utf8_lossy(&s).to_string()
+                        // keep only the tail: the library may be chatty on stderr (a stray dbg!)
+                        let mut tail: Vec<u8> = Vec::new();
+                        let mut buf = [0u8; 65536];
+                        loop {
+                            match err.read(&mut buf) {
+                                Ok(0) | Err(_) => break,
+                                Ok(n) => {
+                                    tail.extend_from_slice(&buf[..n]);
+                                    if tail.len() > 32768 {
+                                        let cut = tail.len() - 16384;
+                                        tail.drain(..cut);
+                                    }
+                                }
+                            }
+                        }
+                        String::from_utf8_lossy(&tail).to_string()
                     });
                     let mut last_stats: Option<Value> = None;
                     let mut finished = false;
